@@ -101,11 +101,11 @@ def rand_u(rng):
     return rng.choice([abs(rand_val(rng)) + 0.01, 0.5, 1.0, 1e-9, 2.5e6, 1])
 
 def rand_df(rng):
-    return rng.choice([math.inf, math.inf, 1, 1.0, 2.5, 7, 30, 1e6, 3.000000001])
+    return rng.choice([math.inf, math.inf, 1, 1.0, 2.5, 7, 30, 1e6, 3.000000001, 250000.0, 100000.5])
 
 def build_archive(rng, ctx_id, labels=LABELS):
     """a random session in Context(id=ctx_id) and an Archive holding a random selection of its objects.
-    Returns (archive, description)."""
+    Returns (archive, description, {tag: object})."""
     from GTC import core, archive as garchive
     new_context(ctx_id)
     lab = lambda: rng.choice(labels)
@@ -164,7 +164,7 @@ def build_archive(rng, ctx_id, labels=LABELS):
         for k, v in items.items():
             ar[k] = v
     desc['tags'] = list(items); desc['kinds'] = [k for k, _ in keep]
-    return ar, desc
+    return ar, desc, items
 
 # ------------------------------------------------------------------ option grids
 JSON_INDENTS = [None, 0, 1, 4]
@@ -187,7 +187,22 @@ def cjopts(o):
     return '(resolve_opts %s %s %s %s)' % (ci, cs, cbool(o['sort_keys']), cbool(o['ensure_ascii']))
 
 XML_INDENTS = [None, 0, 1, 4]
-XML_PREFIXES = [None, 'gtc', 'n0']
+XML_PREFIXES = [None, 'gtc', 'n0', '_a.b-1']
+# namespace prefixes: names that must be ACCEPTED (and give a valid, reloadable document when the encoding
+# can represent them), non-names that must be REFUSED, reserved ones (refused by an older rule or valid)
+GOOD_PREFIXES = ['g', 'a.b', '_x-1', '\u00e9', '\u0434\u0430\u043d\u043d\u044b\u0435', '\u00e0b', 'a\u00b7', '\u6570\u636e', '_\u00e91', 'Z\u0301']
+BAD_PREFIXES = ['1x', 'a b', '-a', '.a', 'a<', 'a>b', 'a"', 'a:b', 'a\n', ' g', 'a/b', 'a=b', '\u00d7a', '\u0300a', '1\u00e9', ';',
+                '\u00f7', '\u00b7a', '\ufffe', '\u2040a', 'a\u00d7', '\u037e', 'a\u2000', '\u00e9 ']
+RESERVED_PREFIXES = ['xmlfoo', 'XML', 'xmlns', 'Xml_1']
+NAME_ONLY_5TH_ED = ['a\u2040', '\u200c', '\U00010000', 'a\U000e0100']     # accepted; expat (4th-ed. names) cannot read them back
+PREFIX_BOUNDS = [64, 65, 90, 91, 94, 95, 96, 97, 122, 123, 44, 45, 46, 47, 48, 57, 58, 59, 182, 183, 184, 191, 192, 214, 215, 216, 246, 247, 248,
+                 767, 768, 879, 880, 893, 894, 895, 8191, 8192, 8203, 8204, 8205, 8206, 8254, 8255, 8256, 8257, 8303, 8304, 8591, 8592,
+                 11263, 11264, 12271, 12272, 12288, 12289, 55295, 63743, 63744, 64975, 64976, 65007, 65008, 65533, 65534, 65535,
+                 65536, 983039, 983040, 1114111, 32, 10, 0]
+
+def rand_prefix(rng):
+    return ''.join(chr(rng.choice(PREFIX_BOUNDS)) for _ in range(rng.choice([1, 1, 2, 2, 3])))
+
 XML_ENCODINGS = [None, 'utf-8', 'unicode', 'us-ascii']
 XML_DECLS = [None, True, False]
 XML_GRID = [dict(indent=i, prefix=p, encoding=e, xml_declaration=d, short_empty_elements=s)
